@@ -206,7 +206,7 @@ def filterRun (name : String) (v : Val) (args : List Val) : Res :=
   | "join", [sep] => joinRun v sep
   | "indices", [y] =>
     match v, y with
-    | .tstr s, .tstr t => .ok (natArr (indicesStr s t))
+    | .tstr s, .tstr t => .ok (natArr (if indicesRepaired then indicesStrRepaired s t else indicesStr s t))
     | .bstr s, .bstr t => .ok (natArr (indicesBytes s t))
     | .arr _, _ => .unsupported
     | _, _ => .err
@@ -271,6 +271,7 @@ def rxRun (kind : String) (g n : Bool) (s : Bytes) (caps : List (List Cap)) : Op
     | "split_matches" => some (true, true)
     | "split_" => some (true, false)
     | _ => none
-  sm.map fun (mi, ma) => (regexParts s g n mi ma caps).map fun ps => .arr (ps.map partVal)
+  sm.map fun (mi, ma) =>
+    ((if regexOffsetsRepaired then regexPartsRepaired s g n mi ma caps else regexParts s g n mi ma caps)).map fun ps => .arr (ps.map partVal)
 
 end Jaq.C13
